@@ -148,6 +148,26 @@ func fdsOnFile() int {
 	return n
 }
 
+// the goroutine count once it has stopped moving: helpers of the previous command
+// (exec's copy goroutines, the watchdog of bounded) may still be on their way out
+func quiesce() int {
+	prev, stable := -1, 0
+	deadline := time.Now().Add(2 * time.Second)
+	for {
+		n := runtime.NumGoroutine()
+		if n == prev {
+			stable++
+		} else {
+			stable = 0
+		}
+		prev = n
+		if stable >= 4 || time.Now().After(deadline) {
+			return n
+		}
+		time.Sleep(300 * time.Microsecond)
+	}
+}
+
 // wait for the goroutine count to come back to base
 func settled(base int, patience time.Duration) bool {
 	deadline := time.Now().Add(patience)
@@ -193,7 +213,7 @@ func errObs(err error) string {
 }
 
 func cmdDrv(table string, cs []string, prog, delay string) {
-	base := runtime.NumGoroutine()
+	base := quiesce()
 	fd0 := fdsOnFile()
 	conn, err := sqdriver.Open(path)
 	if err != nil {
@@ -290,7 +310,7 @@ func scanAll(rows *sql.Rows) ([]interface{}, error) {
 }
 
 func cmdSQL(dbh *sql.DB, table string, cs []string, k int, mode, delay string) {
-	base := runtime.NumGoroutine()
+	base := quiesce()
 	fd0 := fdsOnFile()
 	ctx, cancel := context.WithCancel(context.Background())
 	defer cancel()
